@@ -45,6 +45,7 @@ def main():
                 cr = sh([os.path.join(ROOT, "check"), p, "--tier", a.tier], env=env, cwd=ROOT, timeout=3600)
                 vio = [l for l in cr.stdout.splitlines() if l.startswith("VIOLATION")]
                 verdict = "MISSED" if cr.returncode == 0 else ("infra rc=%d" % cr.returncode if cr.returncode != 1 else
+                          "check crashed (rc=1 without a VIOLATION line): " + (cr.stderr.strip().splitlines() or ["?"])[-1][:120] if not vio else
                           ("caught (no-failing-input-found)" if vio and all("no-failing-input-found" in v for v in vio) else "caught with replay"))
                 rows.append((sid, p, demo, verdict, "%s (%.0fs)" % (vio[0] if vio else "", time.time() - t0)))
         finally:
